@@ -137,6 +137,22 @@ func (m *Model) ruleEVTROW(r *Results) {
 			for ui, wu := range units {
 				if !unitMatched[ui] {
 					problems = append(problems, fmt.Sprintf("statement %q writes %s = %s, which the event never reports", wu.Stmt.Shape(), col, wu.Cols[col]))
+					continue
+				}
+				// a bound value with several alternatives (e.g. the supplied or the preserved expiry): the
+				// event must be able to report each of them, not only one
+				if src := wu.Cols[col]; src.Kind == "bound" && col != "tombstone" && col != "key" {
+					for _, s := range src.Term.alts() {
+						found := false
+						for _, alt := range V.alts() {
+							if termsEqual(alt, s) {
+								found = true
+							}
+						}
+						if !found && !(isZeroTerm(s) && s.Name == "norow") {
+							problems = append(problems, fmt.Sprintf("statement %q can write %s = %s, which the event never reports", wu.Stmt.Shape(), col, s))
+						}
+					}
 				}
 			}
 			if len(problems) == 0 {
@@ -339,39 +355,58 @@ func (m *Model) ruleREV(r *Results) {
 				}
 			}
 		})
-		// only the function that reads documents.revSeqNo
-		reads := false
-		for _, s := range m.Sites {
-			if s.Fn == fn {
-				for _, v := range s.Variants {
-					if st := v.Stmt(); st != nil && st.Select != nil {
-						for _, c := range st.Select.Cols {
-							if isCol(c.Expr, "revSeqNo") {
-								reads = true
+		if len(sprintfs) == 0 {
+			continue
+		}
+		// evaluated in the function that reads documents.revSeqNo: this one, or the caller that
+		// hands the value to this formatting helper
+		readsRev := func(g *ssa.Function) bool {
+			for _, s := range m.Sites {
+				if s.Fn == g {
+					for _, v := range s.Variants {
+						if st := v.Stmt(); st != nil && st.Select != nil {
+							for _, c := range st.Select.Cols {
+								if isCol(c.Expr, "revSeqNo") {
+									return true
+								}
 							}
 						}
 					}
 				}
 			}
+			return false
 		}
-		if !reads || len(sprintfs) == 0 {
-			continue
+		type ctx struct {
+			fr   *frame
+			name string
 		}
-		for _, sp := range sprintfs {
-			vals, dyn := varargValues(sp.Common().Args[1])
-			if dyn || len(vals) == 0 {
-				continue
-			}
-			last := vals[len(vals)-1]
-			t := e.term(last, sp, topFrame(fn))
-			okT := true
-			for _, alt := range t.alts() {
-				if !(isScanOf(alt, "revseqno", false) || isZeroTerm(alt)) {
-					okT = false
+		var ctxs []ctx
+		if readsRev(fn) {
+			ctxs = append(ctxs, ctx{topFrame(fn), m.declName(fn)})
+		} else {
+			for _, c := range m.staticCallersOf(fn) {
+				if g := c.Parent(); readsRev(g) {
+					ctxs = append(ctxs, ctx{topFrame(g).inline(c, fn), m.declName(g)})
 				}
 			}
-			nv++
-			r.check(okT, rule, m.declName(fn)+" / virtual xattr revid", m.instrPos(sp), "the virtual revision id is the revSeqNo column of the row just read", "the virtual revision id is formatted from "+t.String()+", not from the row's revSeqNo")
+		}
+		for _, cx := range ctxs {
+			for _, sp := range sprintfs {
+				vals, dyn := varargValues(sp.Common().Args[1])
+				if dyn || len(vals) == 0 {
+					continue
+				}
+				last := vals[len(vals)-1]
+				t := e.term(last, sp, cx.fr)
+				okT := true
+				for _, alt := range t.alts() {
+					if !(isScanOf(alt, "revseqno", false) || isZeroTerm(alt)) {
+						okT = false
+					}
+				}
+				nv++
+				r.check(okT, rule, cx.name+" / virtual xattr revid", m.instrPos(sp), "the virtual revision id is the revSeqNo column of the row just read", "the virtual revision id is formatted from "+t.String()+", not from the row's revSeqNo")
+			}
 		}
 	}
 	if nv < 2 {
@@ -475,6 +510,47 @@ func (m *Model) ruleEXP(r *Results) {
 	}
 	if na < 6 {
 		r.undecided(rule, "a / instance-floor", "-", "only %d statements bind an expiry", na)
+	}
+	// (e) whether a supplied expiry is applied does not depend on its value: 0 is a value ("never
+	// expires") like any other, only "not supplied" (nil pointer, preserve option) keeps the old one
+	ne := 0
+	for _, fn := range m.Funcs {
+		if !m.inPkg(fn) || fn == a.AbsExpiry {
+			continue
+		}
+		m.eachCall(fn, func(c ssa.CallInstruction) {
+			if c.Common().StaticCallee() != a.AbsExpiry || len(c.Common().Args) != 1 {
+				return
+			}
+			ne++
+			x := stripConv(c.Common().Args[0])
+			var sameSrc func(p, q ssa.Value, d int) bool
+			sameSrc = func(p, q ssa.Value, d int) bool {
+				p, q = stripConv(p), stripConv(q)
+				if p == q {
+					return true
+				}
+				l1, ok1 := p.(*ssa.UnOp)
+				l2, ok2 := q.(*ssa.UnOp)
+				return d < 3 && ok1 && ok2 && l1.Op == token.MUL && l2.Op == token.MUL && sameSrc(l1.X, l2.X, d+1)
+			}
+			same := func(v ssa.Value) bool { return sameSrc(x, v, 0) }
+			key := fmt.Sprintf("e / %s / supplied expiry applied whatever its value", m.declName(fn))
+			bad := ""
+			for _, ct := range controllingConds(fn, c.Block()) {
+				cd := condOf(ct.If)
+				if cd.Y == nil {
+					continue
+				}
+				if same(cd.X) && !isNilConst(cd.Y) || same(cd.Y) && !isNilConst(cd.X) {
+					bad = m.instrPos(ct.If)
+				}
+			}
+			r.check(bad == "", rule, key, m.instrPos(c), "the conversion of the supplied expiry is not conditional on the expiry's value", "the supplied expiry is converted and stored only when it passes a value test (at "+bad+"): for the other values (e.g. an explicit 0 = never expire) the write silently keeps the document's previous expiry")
+		})
+	}
+	if ne < 6 {
+		r.undecided(rule, "e / instance-floor", "-", "only %d calls of the offset-to-absolute function", ne)
 	}
 	// (b) closures that store an expiry but hand out no event must have their caller arm the timer with that value
 	arms := m.armFns()
